@@ -22,9 +22,11 @@
 EXTENDS Naturals, FiniteSets, TLC
 
 CONSTANTS Ops,       \* operation identifiers
-          Kind,      \* [Ops -> {"set", "setex", "get", "del"}]
+          Kind,      \* [Ops -> {"set", "setex", "get", "del", "getdel"}]; "getdel" = a command that reads and deletes
+                     \* (GETDEL, or a pop of the last element) and is NOT in requires_blocking_migration
           InitTtl,   \* ttl class of the initial value: "none" | "some" | "zero" (PTTL answers 0)
           Variant,   \* "code" | seeded design errors "no_key_lock" | "restore_replace" | "no_barrier" | "ttl_zero_persist"
+          GetdelBlocking, \* TRUE: read-and-delete commands take the UMSYNC path like DEL (requires_blocking_migration)
           OwnerSwitch \* "async" = as implemented: when the next metadata arrives the destination proxy serves the
                      \*           slot directly at once, while commands still inside the pull pipeline finish later;
                      \* "sync"  = hypothetical: it waits until the pull pipeline is empty
@@ -74,6 +76,7 @@ Same(a, b) == a.w = b.w /\ (a.ttl = "none") = (b.ttl = "none")
 Exec(o, v) ==
     CASE IsWrite(o) -> <<WriteVal(o), WriteVal(o), {}>>
       [] Kind[o] = "del" -> <<Nil, Nil, {}>>
+      [] Kind[o] = "getdel" -> <<Nil, Nil, IF Same(v, abs) THEN {} ELSE {"stale_read"}>>
       [] OTHER -> <<v, abs, IF Same(v, abs) THEN {} ELSE {"stale_read"}>>
 
 -----------------------------------------------------------------------------
@@ -156,7 +159,7 @@ AtDst(o) ==
     /\ pc' = [pc EXCEPT ![o] =
                 CASE imp = "PreCheck" -> "atSrc"
                   [] imp = "Owner" -> "directSent"
-                  [] Kind[o] = "del" -> "wantKeyLock"
+                  [] Kind[o] = "del" \/ (Kind[o] = "getdel" /\ GetdelBlocking) -> "wantKeyLock"
                   [] OTHER -> "existsSent"]
     /\ UNCHANGED <<src, dst, abs, mig, imp, cap, ret, slotLock, keyLock, scan, scanCap, pendingDel, bad>>
 
